@@ -29,7 +29,15 @@ def _attr_names(exprs) -> Set[str]:
 def uniqueness_checks(model: Model, attr: str) -> List[str]:
     """Raise sites that reject a repeated value of `.attr` (seen-set / len(set) / Counter idioms)."""
     found = []
-    for modname, fn in UNIQ_SITES:
+    uniqueness_checks.pair_keys = []
+    from .. import report as _report
+    sites = list(UNIQ_SITES)
+    # helper functions that did not exist when the sites were read (an extracted check) are searched too
+    for modname in sorted({m for m, _ in UNIQ_SITES}):
+        for qn in model.mod(modname).functions:
+            if _report.CURRENT_DRIFT.get(f"{modname}.{qn}", 0) is None and (modname, qn) not in sites:
+                sites.append((modname, qn))
+    for modname, fn in sites:
         mod = model.mod(modname)
         if not mod.has_func(fn):
             continue
@@ -48,6 +56,8 @@ def uniqueness_checks(model: Model, attr: str) -> List[str]:
                     _, kexprs = expr_closure(cfg, at, key)
                     # the key must identify by this attribute alone: a set keyed on (glyph_name, codepoints) pairs only rejects
                     # inputs that coincide in BOTH and establishes uniqueness of neither
+                    if _attr_names(kexprs) & {"glyph_name", "codepoints"} == {"glyph_name", "codepoints"}:
+                        uniqueness_checks.pair_keys.append((fi, st, short(e, 70)))
                     if _attr_names(kexprs) & {"glyph_name", "codepoints"} != {attr}:
                         continue
                     adds = [c for c in calls_in(fi) if callee_tail(c) in ("add", "append") and isinstance(c.func, ast.Attribute)
@@ -79,8 +89,12 @@ def r17a(model: Model, rr: RuleResult):
         got = uniqueness_checks(model, attr)
         if got:
             rr.ok(f"{what}: {got[0]}")
+        elif uniqueness_checks.pair_keys:
+            pfi, pst, ptxt = uniqueness_checks.pair_keys[0]
+            rr.bad(pfi, pst, f"the only duplicate check is keyed on glyph name AND codepoints together (`{ptxt}`): two inputs that share just the {what} pass it, are merged "
+                   f"into one glyph and the build exits 0", construct=f"uniqueness check on the (glyph_name, codepoints) pair instead of {attr}")
         else:
-            rr.bad(gfi, creates[0], f"no check rejects two inputs that resolve to the same {what} on the path write_font.main -> "
+            rr.bad_shape(gfi, creates[0], f"no check rejects two inputs that resolve to the same {what} on the path write_font.main -> "
                    f"ColorGlyph.create: they are merged into one glyph and the build exits 0",
                    construct=f"_generate_color_font: no uniqueness check on {attr}")
     # the merge site: ColorGlyph.create reuses an existing ufo glyph of the same name (that is what makes duplicates silent)
@@ -161,7 +175,7 @@ def r17b(model: Model, rr: RuleResult):
                 # re-raise wrappers inside handlers count as raise sites too
                 live.append(st)
         if len(live) < len(whats):
-            rr.bad(fi, fi.node, f"{modname}.{fn} has {len(live)} live raise statement(s) but rejects {len(whats)} input classes "
+            rr.bad_shape(fi, fi.node, f"{modname}.{fn} has {len(live)} live raise statement(s) but rejects {len(whats)} input classes "
                    f"({'; '.join(whats)}): at least one is now accepted silently",
                    construct=f"{modname}.{fn}: {len(live)} live raises < {len(whats)} ({'; '.join(whats)})")
             continue
@@ -256,13 +270,26 @@ def r17f(model: Model, rr: RuleResult):
                 verdict, where = "sym", st
             elif one and verdict is None:
                 verdict, where = "one", st
+    # comparing the two name collections element-wise through zip() stops at the shorter one
+    zips = []
+    for st in walk_body(fi):
+        if isinstance(st, (ast.For, ast.comprehension)):
+            it = st.iter
+            if isinstance(it, ast.Call) and isinstance(it.func, ast.Name) and it.func.id == "zip" and len(it.args) == 2:
+                t = norm(it)
+                if A in t and B in t:
+                    zips.append(st)
+    if verdict != "sym" and zips:
+        rr.bad(fi, zips[0] if isinstance(zips[0], ast.stmt) else fi.node, f"the masters' source names are compared pairwise through zip({A}, {B}), which stops at the shorter collection: "
+               f"a master with an extra (or missing) source that sorts last is accepted", construct="config.load: zip() comparison of source_names and master_source_names")
+        return
     if verdict == "sym":
         rr.ok("a master whose source-name set differs from the first master's in either direction is rejected")
     elif verdict == "one":
         rr.bad(fi, where, "masters' source sets are compared in one direction only: a later master with an extra source is accepted and the variable font "
                "silently lacks that glyph", construct="config.load: one-sided comparison of source_names and master_source_names")
     else:
-        rr.bad(fi, fi.node, "no check compares the source-name sets of the masters", construct="config.load: masters source sets unchecked")
+        rr.bad_shape(fi, fi.node, "no check compares the source-name sets of the masters", construct="config.load: masters source sets unchecked")
 
 
 LOSSY_EXTRACTORS = {"findall", "finditer", "search", "sub", "subn", "split_lossy", "translate", "strip_non_numeric"}
@@ -286,9 +313,22 @@ def r17g(model: Model, rr: RuleResult):
     if conv and splits:
         rr.ok("rgb(): tokens come from str.split and go through float(), which rejects anything that is not a number")
     else:
-        rr.bad(fi, fi.node, "rgb(): components are no longer whole split tokens converted by float()", construct="Color.fromstring: rgb() tokenisation")
+        rr.bad_shape(fi, fi.node, "rgb(): components are no longer whole split tokens converted by float()", construct="Color.fromstring: rgb() tokenisation")
     hexes = [c for c in calls_in(fi, nested=True) if isinstance(c.func, ast.Name) and c.func.id == "int" and len(c.args) == 2 and norm(c.args[1]) == "16"]
-    if len(hexes) >= 3:
+    # the accepted lengths are exactly 3, 4 (doubled), 6, 8: membership tests, not inequalities
+    lens = [c for c in ast.walk(fi.node) if isinstance(c, ast.Compare) and any(isinstance(x, ast.Call) and norm(x) == "len(ss)" for x in [c.left] + c.comparators)]
+    ineq = [c for c in lens if any(isinstance(o, (ast.Lt, ast.Gt, ast.LtE, ast.GtE)) for o in c.ops)]
+    member = [c for c in lens if any(isinstance(o, (ast.In, ast.NotIn)) for o in c.ops)]
+    if ineq:
+        rr.bad(fi, ineq[0], f"#hex: the digit count is tested with an inequality ({short(ineq[0])}): lengths other than 3, 4, 6, 8 (e.g. 7, or more than 8 digits) are accepted "
+               f"and read as some colour instead of being rejected", construct=f"Color.fromstring: hex length test {short(ineq[0])}")
+    elif member:
+        sets = sorted({e.value for c in member for x in c.comparators if isinstance(x, (ast.Tuple, ast.Set, ast.List)) for e in x.elts if isinstance(e, ast.Constant)})
+        if set(sets) == {3, 4, 6, 8}:
+            rr.ok("#hex: accepted lengths are exactly 3, 4, 6, 8")
+        else:
+            rr.bad(fi, member[0], f"#hex: accepted lengths are {sets}, expected 3, 4, 6, 8", construct=f"Color.fromstring: hex lengths {sets}")
+    if len(hexes) >= 3 or (len(hexes) >= 1 and any(isinstance(n, (ast.GeneratorExp, ast.ListComp)) and any(h in list(ast.walk(n)) for h in hexes) for n in ast.walk(fi.node))):
         rr.ok("#hex: every channel goes through int(.., 16), which rejects non-hex digits")
     else:
-        rr.bad(fi, fi.node, "#hex: channels are no longer converted by int(.., 16)", construct="Color.fromstring: hex conversion")
+        rr.bad_shape(fi, fi.node, "#hex: channels are no longer converted by int(.., 16)", construct="Color.fromstring: hex conversion")
